@@ -587,7 +587,7 @@ def run_case(case, keep_events=0, record_choices=False):
     k = r.kernel
     w = r.world
     faults = {}
-    for name in ('connect_refused', 'popen_failed', 'poll_timeout', 'send_to_closed_peer', 'eof_seen'):
+    for name in ('connect_refused', 'popen_failed', 'poll_timeout', 'send_to_closed_peer', 'eof_seen', 'slow_connect', 'timer_armed'):
         if w.counts.get(name):
             faults[name] = w.counts[name]
     for name, n in w.counts.items():
